@@ -50,7 +50,8 @@ def one_run(E, k, kind, real=False, bystanders=False):
     inner_d = E.num('id%d' % k, 0, 20, real=real) if kind == NESTED else None
     # a third root that is still suspended when the run ends (by a failure or at quiescence)
     # and whose clean-up would need the simulation: nobody may run it as part of run()
-    bykind = E.pick('by%d' % k, 3) if bystanders and kind in (RAISES, WAITERS, SUCCESS) else 0
+    bykind = (E.pick('by%d' % k, 4 if kind == RAISES else 3)
+              if bystanders and kind in (RAISES, WAITERS, SUCCESS) else 0)
 
     async def inner():
         log('in', 'start')
@@ -90,6 +91,14 @@ def one_run(E, k, kind, real=False, bystanders=False):
                 await eternity
             finally:
                 time.now
+        elif bykind == 3:
+            # suspended in a *timed* wait (so it sits in the loop's queue) when the run is
+            # aborted; its clean-up objects loudly if somebody runs it as part of the simulation
+            try:
+                await (time + 1000)
+            finally:
+                if not sees_no_simulation():
+                    raise UserErr('clean-up of a left-over activity ran inside run()')
         else:
             async with Scope() as scope:
                 scope.do(forever())
